@@ -21,6 +21,7 @@ def run(prop, tier, seed, plan, assumptions, rule, mc=None, nontrivial_key="stat
             dbcheck.run_kind(c, wd, prop, kind, seed * 1000 + k, m)
             done += m
             k += 1
+    vlib.report_known(c, prop)
     c.cov["rule"] = rule
     c.cov.setdefault("states", 1); c.cov.setdefault("transitions", 1)
     c.cov.setdefault("traces_validated_against_impl", 0)
